@@ -405,7 +405,7 @@ def main(sess):
             f(sess)
     if not only or 'e2e' in only:
         from drivers import e2e
-        e2e.family_for(sess, 'C06', quick_n=5)
+        e2e.family_for(sess, 'C06', quick_n=6)
     try:
         from drivers import c06_walker
         if not only or 'walker' in only:
